@@ -293,7 +293,8 @@ theorem win_inA {p : Par} {s : State} {t0 : Nat} {frs : List Frm} {gab grest : G
     obtain ⟨_, _, e3, e4, e5⟩ := h.fba (t0, frs) hd0 fr hfr
     have := h.ord.2
     exact ⟨⟨e3, by omega, e5⟩, (w.wU (t0, frs) hd0 fr hfr fr0 hm0).1, (w.wU (t0, frs) hd0 fr hfr fr0 hm0).2⟩
-  obtain ⟨q1, q2, q3, q4, q5⟩ := inFrs_win p.base fr0.una fr0.wnd frs { k := s.A } hne w.wc
+  obtain ⟨q1, q2, q3, q4, q5⟩ := inFrs_win p.base fr0.una fr0.wnd frs { k := s.A } hne
+    (fun x hx => (h.aseg x hx).1) w.wc
     (w.wB (t0, frs) hd0 fr0 hm0).2 (by show o p.base s.A.snd_nxt < 2 ^ 31; omega) rfl hall
   -- the RTT sample and the cwnd update do not touch these fields
   have hk1s : k1.snd_una = fr0.una ∧ k1.snd_buf = (inFrs true frs { k := s.A }).k.snd_buf ∧ k1.snd_nxt = s.A.snd_nxt ∧
